@@ -180,7 +180,7 @@ Definition cstep (c : cstate) (e : cev) : option cstate :=
             | BBlock => with_k c [LMayBlock t] ss pr
             end
           | Some [] =>
-            if t =? 0 then with_k c [LMayBlock t] ss (del_prog t c.(cprog))   (* main: the final wait *)
+            if t =? 0 then with_k c [LMayBlock t; LBlocked s w t] ss (del_prog t c.(cprog))   (* main: the final wait, it blocks *)
             else with_k c [LEnd t] ss (del_prog t c.(cprog))
           | None => if t =? 0 then None else with_k c [LEnd t] ss c.(cprog)
           end
